@@ -377,7 +377,7 @@ def main():
         gran[ai] = (sorted(set(a.ifm_bank_granules.values()) | set(a.ifm_ew_bank_granules.values())),
                     sorted(set(a.accumulator_granules.values())))
     R = bool(ck.replay_arg)      # replay mode: only the recorded input is run
-    n_core = 0 if R else (200000 if T else 12000)
+    n_core = 0 if R else (400000 if T else 12000)
     for _ in range(n_core):
         ai = rng.randrange(nacc)
         ew = rng.choice([0, 0, 1, 2])
@@ -406,7 +406,7 @@ def main():
 
     # -------- B: try_block_config ------------------------------------------------------------------
     try_cases = []
-    n_try = 0 if R else (300000 if T else 20000)
+    n_try = 0 if R else (600000 if T else 20000)
     bts_try = [BT["ConvolutionMxN"]] * 4 + [BT["ConvolutionDepthWise"]] * 2 + [BT["Pooling"]] * 2 + [BT["ElementWise"]] * 3 + \
         [BT["ReduceSum"], BT["VectorProduct"], BT["Default"]]
     for _ in range(n_try):
@@ -442,7 +442,7 @@ def main():
 
     # -------- C: find_block_config -----------------------------------------------------------------
     find_cases = []
-    n_find = 0 if R else (60000 if T else 5000)
+    n_find = 0 if R else (120000 if T else 5000)
     bts_find = [BT["ConvolutionMxN"]] * 4 + [BT["ConvolutionDepthWise"]] * 2 + [BT["Pooling"]] * 2 + [BT["ElementWise"]] * 3 + \
         [BT["ReduceSum"], BT["VectorProduct"]]
     # dense part: all accelerators x op kinds x bits x lut x upscaling on a few small shapes
@@ -490,13 +490,17 @@ def main():
             if ifm2 and rng.random() < 0.2:
                 ifm, ifm2 = ifm2, ifm      # the larger-volume correction
         bits = rng.choice([8, 8, 16, 16, 32] if bt in (BT["ElementWise"], BT["ReduceSum"]) else [8, 8, 16])
+        if rng.random() < 0.02:     # nothing fits: 32-bit IFM, deep, large dilated kernel
+            bt, bits = BT["ReduceSum"], 32
+            k = (rng.randint(4, 8), rng.randint(4, 8), rng.randint(1, 3), rng.randint(1, 3), 2, 2)
+            ifm, ifm2, scalar = (ofm[0], rand_dim(60), rand_dim(60), rng.choice([16, 32, 64])), None, False
         find_cases.append((ai, bt, ofm, ifm, ifm2, scalar, bits, k, rng.choice([0, 2]), rng.random() < 0.7, rs))
     find_req = [req_find(c) for c in find_cases]
     find_real = pmap(pool, real_find, find_cases, 32)
 
     # -------- D/E: API operations -------------------------------------------------------------------
     op_cases = []
-    n_ops = 0 if R else (12000 if T else 2000)
+    n_ops = 0 if R else (24000 if T else 2000)
 
     def mk_op(ai, kind, dtype, lut, upscale, quants, ofm, k=None, ifm_d=None, ew_mode=None, pk_first=None):
         w, h, d = ofm
